@@ -305,3 +305,33 @@ def _(v):
     v.prove("every_form_of_the_allowed_keys", not accepted, detail=repr(accepted))
     ok = str(Reaction.from_string("H2O2 -> H2O + O", "H2O2 H2O O")) == "H2O2 -> H2O + O" and str(Reaction.from_string("H2O2 -> H2O + O", ["O", "H2O", "H2O2"])) == "H2O2 -> H2O + O"
     v.prove("known_keys_are_accepted", ok)
+
+
+@harness("C12", "system_from_text", functions=["chempy.reactionsystem:ReactionSystem.from_string", "chempy.equilibria:EqSystem.from_string"], kind="data")
+def _(v):
+    """'multi-line systems with comments': one reaction per non-blank, non-comment line, in order, exactly as written (hand-written expectations);
+    a `substances` argument is the allowed-key list for every line; trailing comments and keyword parts are not species"""
+    from chempy.chemistry import Substance
+    from chempy.reactionsystem import ReactionSystem
+    from chempy.equilibria import EqSystem
+    text = "\n".join(["# a comment line", "", "2 HNO2 -> H2O + NO + NO2; 3  # trailing comment", "   ", "   # indented comment", "2 NO2 -> N2O4; 4; name='dimerisation'",
+                      "NO + (2 H2O) -> NO2 + (H2O); 5e-3", "3 * NO2 + [Fe(CN)6]-3 -> (NH4)2SO4 + 2 NO2; 1.5"])
+    rs = ReactionSystem.from_string(text, substance_factory=Substance, checks=())
+    got = [(dict(r.reac), dict(r.prod), dict(r.inact_reac), dict(r.inact_prod), r.param, r.name) for r in rs.rxns]
+    want = [({"HNO2": 2}, {"H2O": 1, "NO": 1, "NO2": 1}, {}, {}, 3, None), ({"NO2": 2}, {"N2O4": 1}, {}, {}, 4, "dimerisation"),
+            ({"NO": 1}, {"NO2": 1}, {"H2O": 2}, {"H2O": 1}, 5e-3, None), ({"NO2": 3, "[Fe(CN)6]-3": 1}, {"(NH4)2SO4": 1, "NO2": 2}, {}, {}, 1.5, None)]
+    v.prove("one_reaction_per_line_in_order_as_written", got == want, detail=repr(got))
+    v.prove("substances_are_the_species_mentioned", set(rs.substances) == {"HNO2", "H2O", "NO", "NO2", "N2O4", "[Fe(CN)6]-3", "(NH4)2SO4"} and len(rs.substances) == 7, detail=repr(list(rs.substances)))
+    keys = "HNO2 H2O NO NO2 N2O4"
+    ok = ReactionSystem.from_string("2 HNO2 -> H2O + NO + NO2; 3\n2 NO2 -> N2O4; 4", keys, substance_factory=Substance)
+    v.prove("allowed_keys_accepted", [str(r) for r in ok.rxns] == ["2 HNO2 -> H2O + NO + NO2; 3", "2 NO2 -> N2O4; 4"] and list(ok.substances) == keys.split())
+    refused = []
+    for bad_text in ("2 HNO2 -> H2O + NO + NO2; 3\n2 NO2 -> N2O5; 4", "2 HNO3 -> H2O + NO + NO2; 3\n2 NO2 -> N2O4; 4", "2 HNO2 -> H2O + NO + NO2; 3\n2 NO2 -> (Xe) + N2O4; 4"):
+        try:
+            ReactionSystem.from_string(bad_text, keys, substance_factory=Substance, checks=())
+            refused.append(False)
+        except ValueError:
+            refused.append(True)
+    v.prove("unknown_key_on_any_line_is_refused", all(refused), detail=repr(refused))
+    es = EqSystem.from_string("H2O = H+ + OH-; 1e-14\nNH4+ = NH3 + H+; 5.6e-10")
+    v.prove("equilibria_use_the_equals_arrow", [(dict(r.reac), dict(r.prod), r.param) for r in es.rxns] == [({"H2O": 1}, {"H+": 1, "OH-": 1}, 1e-14), ({"NH4+": 1}, {"H+": 1, "NH3": 1}, 5.6e-10)])
